@@ -4,6 +4,7 @@ use crate::cache::cache::{
 };
 use crate::cache::error::{CacheError, Result};
 use crate::server::timer;
+use dashmap::mapref::entry::Entry;
 use dashmap::mapref::multiple::RefMulti;
 use dashmap::{DashMap, ReadOnlyView};
 #[cfg(feature = "memcrs_verif")]
@@ -121,23 +122,24 @@ impl Cache for MemoryStore {
     fn set(&self, key: KeyType, mut record: Record) -> Result<SetStatus> {
         //trace!("Set: {:?}", &record.header);
         if record.header.cas > 0 {
-            match self.memory.get_mut(&key) {
-                Some(mut key_value) => {
-                    if key_value.header.cas != record.header.cas {
+            // the entry keeps the shard locked from the lookup to the insert
+            match self.memory.entry(key) {
+                Entry::Occupied(mut entry) => {
+                    if entry.get().header.cas != record.header.cas {
                         Err(CacheError::KeyExists)
                     } else {
                         record.header.cas = self.get_cas_id();
                         record.header.timestamp = self.timer.timestamp();
                         let cas = record.header.cas;
-                        *key_value = record;
+                        entry.insert(record);
                         Ok(SetStatus { cas })
                     }
                 }
-                None => {
+                Entry::Vacant(entry) => {
                     record.header.cas += 1;
                     record.header.timestamp = self.timer.timestamp();
                     let cas = record.header.cas;
-                    self.memory.insert(key, record);
+                    entry.insert(record);
                     Ok(SetStatus { cas })
                 }
             }
